@@ -29,9 +29,9 @@ MANIFEST = dict(
          'representative; single party with all mask scripts, then (1,0),(2,0),(3,1),(4,1),(5,2) with PRSS on/off incl. the all-max mask sum.',
     ref='DESIGN 5/C06', note='trusted: randomness seam, world model')
 
-TYPES = ['int3', 'int5', 'int6', 'int10', 'fxp63', 'fxp82', 'fld11u', 'fld13s', 'fld127s', 'fld101u']
+TYPES = ['int3', 'int5', 'int6', 'int10', 'fxp63', 'fxp82', 'fld11u', 'fld13s', 'fld127s', 'fld101u', 'int24']
 FLD = {'fld11u': (11, False), 'fld13s': (13, True), 'fld127s': (127, True), 'fld101u': (101, False)}
-INT = {'int3': 3, 'int5': 5, 'int6': 6, 'int10': 10}
+INT = {'int3': 3, 'int5': 5, 'int6': 6, 'int10': 10, 'int24': 24}     # int24: a target much wider than any source (target only)
 FXP = {'fxp63': (6, 3), 'fxp82': (8, 2)}
 
 
@@ -168,6 +168,8 @@ def build(mpc, pairs=None):
         dom = values(src)
         for dst in TYPES:
             if src == dst or (pairs is not None and (src, dst) not in pairs):
+                continue
+            if src == 'int24' or (dst == 'int24' and src not in ('fxp63', 'fxp82', 'int5')):
                 continue
             D = sectype(mpc, dst)
             mpd = dom if len(dom) <= 8 else sorted({dom[0], dom[1], dom[len(dom) // 2 - 1], dom[len(dom) // 2], dom[len(dom) // 2 + 1], dom[-2], dom[-1]} |
